@@ -212,7 +212,7 @@ func (m *ImplLib) Exec(line string) string {
 	switch tk[0] {
 	case "reset":
 		m.taintMode, m.tainted = false, false
-	case "resetfile", "use", "create", "open", "setdisk", "rmdisk", "drop":
+	case "resetfile", "use", "create", "createover", "open", "setdisk", "rmdisk", "drop":
 		m.tainted = false
 	case "upd", "updmany":
 		if m.taintMode && obs != "ok" && obs != "nohandle" && !strings.HasPrefix(obs, "panic") {
@@ -257,6 +257,25 @@ func (m *ImplLib) exec1(line string) (obs string) {
 			m.db = nil
 		}
 		db, err := wt.Create(m.path, lay, wt.AggregationMethod(agg), math.Float32frombits(uint32(xb)))
+		if err != nil {
+			return errObs(err)
+		}
+		m.db = db
+		return "ok"
+	case "createover":
+		// Create with an open flag that allows an existing file (no O_EXCL, no O_TRUNC)
+		lay, err := parseLay(tk[1])
+		if err != nil {
+			return "bad-op"
+		}
+		agg, _ := strconv.Atoi(tk[2])
+		xb, _ := strconv.ParseUint(tk[3], 16, 32)
+		if m.db != nil {
+			m.db.Close()
+			m.db = nil
+		}
+		db, err := wt.Create(m.path, lay, wt.AggregationMethod(agg), math.Float32frombits(uint32(xb)),
+			wt.WithOpenFileFlag(os.O_RDWR|os.O_CREATE))
 		if err != nil {
 			return errObs(err)
 		}
